@@ -15,6 +15,7 @@ struct Input {
     stdin: Option<Vec<u8>>,
     inst: Option<Value>,      // a calendar instant whose UTC date must lead the output
     relative_c: Option<String>,
+    nomask: bool,             // a clean checkout exactly at its tag: no wall-clock value is documented, none is masked
 }
 
 const ANCHORS: &[(u64, u32, u32, u32, u32, u32)] = &[(19782, 2024, 2, 29, 3, 60), (47541, 2100, 3, 1, 0, 60), (10957, 2000, 1, 1, 5, 1),
@@ -31,54 +32,65 @@ fn inputs(repos: &[Repo]) -> Vec<Input> {
             let inst = json!({"c": {"day": day, "y": y, "m": m, "d": d, "wd": wd, "yd": yd}, "sod": sod});
             for schema in ["calver-base", "calver"] {
                 v.push(Input { args: vec![s("version"), s("--source"), s("none"), s("--tag-version"), s("1.2.3"), s("--schema"), s(schema), s("--bumped-timestamp"), ts.clone()],
-                               stdin: None, inst: Some(inst.clone()), relative_c: None });
+                               stdin: None, inst: Some(inst.clone()), relative_c: None, nomask: false });
             }
             v.push(Input { args: vec![s("version"), s("--source"), s("none"), s("--tag-version"), s("1.2.3"), s("--bumped-timestamp"), ts.clone(), s("--output-template"),
                                       s("{{ format_timestamp(value=bumped_timestamp, format=\"%Y.%-m.%-d\") }}-{{ format_timestamp(value=bumped_timestamp, format=\"%H%M%S %j\") }} {{ format_timestamp(value=bumped_timestamp) }} {{ format_timestamp(value=bumped_timestamp, format=\"compact_datetime\") }}")],
-                           stdin: None, inst: Some(inst.clone()), relative_c: None });
+                           stdin: None, inst: Some(inst.clone()), relative_c: None, nomask: false });
             v.push(Input { args: vec![s("version"), s("--source"), s("none"), s("--tag-version"), s("1.2.3"), s("--bumped-timestamp"), ts.clone(), s("--schema-ron"),
                                       s("(core:[var(ts(\"YYYY\")),var(ts(\"MM\")),var(ts(\"DD\"))],extra_core:[],build:[var(ts(\"0H\")),var(ts(\"WW\")),var(ts(\"compact_datetime\"))])")],
-                           stdin: None, inst: Some(inst), relative_c: None });
+                           stdin: None, inst: Some(inst), relative_c: None, nomask: false });
         }
     }
     // the branch hash in every process; flow; sanitising of non-ASCII text; sorting-sensitive output
     for b in ["main", "feature/x", "Ünï/çødé", "release/2", "ǅ-titlecase", "i̇stanbul/İ"] {
         for l in [1, 5, 10] {
             v.push(Input { args: vec![s("flow"), s("--source"), s("none"), s("--tag-version"), s("1.0.0"), s("--distance"), s("2"), s("--bumped-branch"), s(b), s("--hash-branch-len"), l.to_string()],
-                           stdin: None, inst: None, relative_c: None });
+                           stdin: None, inst: None, relative_c: None, nomask: false });
         }
         v.push(Input { args: vec![s("version"), s("--source"), s("none"), s("--tag-version"), s("1.0.0"), s("--bumped-branch"), s(b), s("--output-template"),
                                   s("{{ hash(value=bumped_branch, length=12) }} {{ hash_int(value=bumped_branch, length=9) }} {{ sanitize(value=bumped_branch, preset=\"pep440\") }} {{ bumped_branch | upper }}")],
-                       stdin: None, inst: None, relative_c: None });
+                       stdin: None, inst: None, relative_c: None, nomask: false });
         v.push(Input { args: vec![s("version"), s("--source"), s("none"), s("--tag-version"), s("1.0.0"), s("--bumped-branch"), s(b), s("--schema"), s("standard-context"), s("--distance"), s("1"), s("--output-format"), s("pep440")],
-                       stdin: None, inst: None, relative_c: None });
+                       stdin: None, inst: None, relative_c: None, nomask: false });
     }
     let ron = "(schema:(core:[var(Major),var(Minor),var(Patch)],extra_core:[var(Epoch),var(PreRelease),var(Post),var(Dev)],build:[var(BumpedBranch),var(custom(\"k\"))]),vars:(major:Some(1),minor:Some(2),patch:Some(3),post:Some(4),bumped_branch:Some(\"Größe/İ\"),custom:{\"k\":\"ÄÖÜ\"}))";
     for fmt in ["semver", "pep440", "zerv"] {
-        v.push(Input { args: vec![s("version"), s("--source"), s("stdin"), s("--output-format"), s(fmt)], stdin: Some(ron.as_bytes().to_vec()), inst: None, relative_c: None });
+        v.push(Input { args: vec![s("version"), s("--source"), s("stdin"), s("--output-format"), s(fmt)], stdin: Some(ron.as_bytes().to_vec()), inst: None, relative_c: None, nomask: false });
     }
     for ver in ["1.2.3-alpha.1+b", "1!2.0rc1.post2.dev3+Loc.AL", "v1.0.0-RC.1"] {
-        v.push(Input { args: vec![s("render"), s(ver), s("--output-format"), s("pep440")], stdin: None, inst: None, relative_c: None });
-        v.push(Input { args: vec![s("check"), s(ver)], stdin: None, inst: None, relative_c: None });
+        v.push(Input { args: vec![s("render"), s(ver), s("--output-format"), s("pep440")], stdin: None, inst: None, relative_c: None, nomask: false });
+        v.push(Input { args: vec![s("check"), s(ver)], stdin: None, inst: None, relative_c: None, nomask: false });
     }
     // git repositories addressed with -C (absolute path) from different working directories
-    for r in repos {
+    for (ri, r) in repos.iter().enumerate() {
+        let first = v.len();
+        let at_tag = CLEAN_AT_TAG.contains(&ri);
         for cmd in ["version", "flow"] {
             for fmt in ["semver", "zerv"] {
-                v.push(Input { args: vec![s(cmd), s("-C"), r.dir.display().to_string(), s("--output-format"), s(fmt)], stdin: None, inst: None, relative_c: None });
+                v.push(Input { args: vec![s(cmd), s("-C"), r.dir.display().to_string(), s("--output-format"), s(fmt)], stdin: None, inst: None, relative_c: None, nomask: false });
             }
         }
         for ifmt in ["semver", "pep440"] {
-            v.push(Input { args: vec![s("version"), s("-C"), r.dir.display().to_string(), s("--input-format"), s(ifmt), s("--output-format"), s("zerv")], stdin: None, inst: None, relative_c: None });
-            v.push(Input { args: vec![s("version"), s("-C"), r.dir.display().to_string(), s("--input-format"), s(ifmt), s("--output-format"), s("pep440")], stdin: None, inst: None, relative_c: None });
+            v.push(Input { args: vec![s("version"), s("-C"), r.dir.display().to_string(), s("--input-format"), s(ifmt), s("--output-format"), s("zerv")], stdin: None, inst: None, relative_c: None, nomask: false });
+            v.push(Input { args: vec![s("version"), s("-C"), r.dir.display().to_string(), s("--input-format"), s(ifmt), s("--output-format"), s("pep440")], stdin: None, inst: None, relative_c: None, nomask: false });
         }
         // and by a path relative to the parent directory
         let name = r.dir.file_name().unwrap().to_string_lossy().to_string();
-        v.push(Input { args: vec![s("version"), s("-C"), name, s("--schema"), s("calver-context")], stdin: None, inst: None, relative_c: Some(r.dir.parent().unwrap().display().to_string()) });
+        v.push(Input { args: vec![s("version"), s("-C"), name, s("--schema"), s("calver-context")], stdin: None, inst: None, relative_c: Some(r.dir.parent().unwrap().display().to_string()), nomask: false });
+        if at_tag {
+            v.push(Input { args: vec![s("version"), s("-C"), r.dir.display().to_string(), s("--schema"), s("calver")], stdin: None, inst: None, relative_c: None, nomask: false });
+            v.push(Input { args: vec![s("version"), s("-C"), r.dir.display().to_string(), s("--output-template"), s("{{ bumped_timestamp }} {{ last_timestamp }}")], stdin: None, inst: None, relative_c: None, nomask: false });
+            for i in &mut v[first..] {
+                i.nomask = true;
+            }
+        }
     }
     v
 }
 
+/// indices (in the order the recorder creates them) of the repositories that are clean and exactly at their tag
+const CLEAN_AT_TAG: &[usize] = &[2, 3, 5];
 const TZS: &[&str] = &["UTC", "Pacific/Kiritimati", "Pacific/Pago_Pago", "Asia/Kolkata"];
 const LOCALES: &[&str] = &["C", "C.UTF-8", "de_DE.UTF-8", "tr_TR.UTF-8"];
 
@@ -114,6 +126,10 @@ pub fn record(args: &[String]) {
     }
     e.apply("commit", &json!([])).unwrap();
     repos.push(e);
+    // a clean checkout at a tag whose commit was made at the Unix epoch itself (time 0)
+    let mut f = Repo::new(3);
+    f.apply("tag", &to_cps("v0.3.0")).unwrap();
+    repos.push(f);
     let ins = inputs(&repos);
     let other = std::env::temp_dir().join(format!("zv-cwd-{}", std::process::id()));
     std::fs::create_dir_all(&other).unwrap();
@@ -137,7 +153,7 @@ pub fn record(args: &[String]) {
         };
         let r = run_bin(&inp.args, inp.stdin.as_deref(), &env, &["RUST_LOG"], cwd.as_deref());
         let out = String::from_utf8_lossy(&r.stdout).to_string();
-        let masked = mask_now_text(&out);
+        let masked = if inp.nomask { out.clone() } else { mask_now_text(&out) };
         json!({"k": "run", "input": i + 1, "argv": inp.args, "tz": tz, "locale": loc, "cwd": cwd.map(|c| c.display().to_string()).unwrap_or_default(),
                "extra_env": env.len() - 3, "status": r.status, "signal": r.signal, "out": to_cps(&masked.chars().take(1500).collect::<String>()),
                "has_inst": inp.inst.is_some(), "inst": inp.inst.clone().unwrap_or(json!({"c": {"day": 0, "y": 1970, "m": 1, "d": 1, "wd": 3, "yd": 1}, "sod": 0}))})
